@@ -252,3 +252,12 @@ def r6(cx, rec):
                                       '(more than 32 commands pending for this receiver) is discarded silently and the skipped SendHave '
                                       'announcements are never delivered on this connection')
     rec.need(found, 'no-broadcast-arm', 'peer_handler', None, 'peer loop has no broadcast branch')
+
+
+@TABLE.rule('2c', 'K1', 'what is reported done is what the manager assigned: a new assignment always replaces the assembly state, and an abandoned '
+            'download leaves none behind (shared with C10/C01) -- otherwise PieceDone, which carries no index, marks and advertises a piece '
+            'that was never verified', floor=2)
+def r2c(cx, rec):
+    from rules import C10
+    C10.fresh_assignment(cx, rec)
+    C10.cancel_clears_state(cx, rec)
